@@ -447,11 +447,14 @@ def check_engine_a(prop, tier, seed):
         "exceptions_seen": tot.get("exceptions", {}),
         "rare_condition_probes": {k: v for k, v in tot.get("probes", {}).items()},
         "distinct_sites_reached": {"count": len(set().union(*[getattr(b, "sites", set()) for _, b in batches])), "measure": "distinct (operation kind, overload/element type, storage class of every operand, input validity) tuples executed at least once"},
-        "engine_counters": {k: v for k, v in tot.items() if k in ("pairs", "calls", "rejected_by_format", "per_sink", "nontrivial_runs", "events", "accesses_checked", "strategies", "sync_operations_modelled", "unsupported_primitive_runs")},
+        "engine_counters": {k: v for k, v in tot.items() if k in ("pairs", "calls", "rejected_by_format", "per_sink", "nontrivial_runs", "events", "accesses_checked", "strategies", "sync_operations_modelled", "unsupported_primitive_runs", "libc_process_state")},
         "determinism": {"indices_run_twice": det_n, "worker_counts": [4, NCPU], "mismatches": len(det_bad)},
         "components_real": ENGINE_PARTS[cfg["engine"]][0], "components_simulated": ENGINE_PARTS[cfg["engine"]][1],
         "known_findings_seen": n_known, "fixed_entries_in_known_findings_file": len(fixed),
     }
+    for k in ("invariant_evaluations", "library_allocations_observed", "exceptions_seen", "rare_condition_probes"):
+        if not cov.get(k): cov.pop(k, None)
+    if not cov["distinct_sites_reached"]["count"]: cov.pop("distinct_sites_reached")
     if "overlap_pairs_set" in tot:
         dim, nk = tot["overlap_dim"], tot["op_kinds"]
         covered = {(x // dim, x % dim) for x in tot["overlap_pairs_set"] if x // dim < nk and x % dim < nk}
